@@ -3,6 +3,7 @@
   pure plan of Spec/SessionTypedC03; the plan is a coverage chain; facts about `Store.range`, `gapFill`, `resent`.
 -/
 import Qfx.Spec.SessionTypedC03
+import Qfx.Lemmas.SessStore
 namespace Qfx.Sess
 open Qfx
 
@@ -194,7 +195,7 @@ theorem msgs_closeReps (l : List (Int × OutMsg)) (a b : Int) :
       · rename_i h1 h2
         have hr := replayable_true (n, m) h1 h2
         rw [List.filter_cons_of_pos hr, ← ih (n + 1) (n + 1)]
-        simp [closeReps, Rep.msg?, List.filterMap_append, List.filterMap_cons, closeGap_msgs]
+        simp [closeReps, Rep.msg?, List.filterMap_append, closeGap_msgs]
 
 /-- a gap fill of the plan never covers a stored message that is replayable -/
 theorem gaps_closeReps (l : List (Int × OutMsg)) : ∀ (a b : Int), a ≤ b → (∀ p ∈ l, b ≤ p.1) → Asc l →
@@ -246,7 +247,7 @@ theorem range_mem (st : Store) (b e : Int) (p : Int × OutMsg) :
   unfold Store.range
   split
   · simp only [List.not_mem_nil, false_iff]; omega
-  · simp only [List.mem_filterMap, List.mem_range, Option.map_eq_some_iff, Int.ofNat_eq_coe]
+  · simp only [List.mem_filterMap, List.mem_range, Option.map_eq_some_iff, Int.ofNat_eq_natCast]
     constructor
     · rintro ⟨k, hk, m, hm, rfl⟩
       refine ⟨by simp only; omega, ?_, hm⟩
@@ -264,7 +265,7 @@ theorem range_asc (st : Store) (b e : Int) : Asc (st.range b e) := by
   · exact List.Pairwise.nil
   · refine List.Pairwise.filterMap _ ?_ List.pairwise_lt_range
     intro k k' hk p hp q hq
-    simp only [Option.map_eq_some_iff, Int.ofNat_eq_coe] at hp hq
+    simp only [Option.map_eq_some_iff, Int.ofNat_eq_natCast] at hp hq
     obtain ⟨_, _, rfl⟩ := hp
     obtain ⟨_, _, rfl⟩ := hq
     simp only; omega
@@ -392,5 +393,72 @@ theorem rep_out_possDup (r : Rep) : r.out.f.get? 43 = some "Y" ∧ (r.out.f.get?
   cases r with
   | gap a b => exact ⟨(gapFill_fields a b).2.1, (gapFill_fields a b).2.2.1⟩
   | msg n m => exact ⟨resent_possDup m, resent_origSendingTime m⟩
+
+/-! ### the store holds every number it has used (persistence on) -/
+
+/-- persistence on ⇒ the store is filed by MsgSeqNum, strictly descending (latest first), all numbers in `[1, sender)`,
+    and every number of `[1, sender)` is present -/
+def StoredAllInv (p : Bool) (st : Store) : Prop :=
+  p = true → 1 ≤ st.sender ∧ st.Filed ∧ st.msgs.Pairwise (fun a b => b.1 < a.1) ∧
+    (∀ q ∈ st.msgs, 1 ≤ q.1 ∧ q.1 < st.sender) ∧ st.HoldsAll 1 (st.sender - 1)
+
+theorem lookup_cons (st : Store) (k : Int) (m : OutMsg) (n : Int) (x y : Int) :
+    Store.lookup { sender := x, target := y, msgs := (k, m) :: st.msgs, epoch := st.epoch } n =
+      if k = n then some m else st.lookup n := by
+  unfold Store.lookup
+  simp only [List.find?_cons]
+  by_cases h : k = n
+  · simp [h]
+  · have : (k == n) = false := by simpa using h
+    simp [this, h]
+
+theorem storedAllInv_closed : StoreClosed StoredAllInv where
+  reset := by
+    intro p st _ _
+    refine ⟨by simp [Store.reset], ?_, ?_, ?_, ?_⟩
+    · intro q hq; simp [Store.reset] at hq
+    · simp [Store.reset]
+    · intro q hq; simp [Store.reset] at hq
+    · intro n h1 h2; simp [Store.reset] at h2; omega
+  save := by
+    intro st m h hm _
+    obtain ⟨h1, h2, h3, h4, h5⟩ := h rfl
+    refine ⟨by simp only; omega, ?_, ?_, ?_, ?_⟩
+    · intro q hq
+      simp only [List.mem_cons] at hq
+      rcases hq with rfl | hq
+      · exact hm
+      · exact h2 q hq
+    · simp only [List.pairwise_cons]
+      exact ⟨fun q hq => (h4 q hq).2, h3⟩
+    · intro q hq
+      simp only [List.mem_cons] at hq
+      rcases hq with rfl | hq
+      · simp only; omega
+      · have := h4 q hq; simp only; omega
+    · intro n hn1 hn2
+      simp only at hn2
+      rw [lookup_cons]
+      split
+      · rfl
+      · exact h5 n hn1 (by omega)
+  inc := by intro st _ h; cases h
+  target := by
+    intro p st n h hp
+    exact h hp
+
+theorem verifyAppImpl_emit (s : Sess) (m : InMsg) : (verifyAppImpl s m).1 = s ∨ ∃ o, (verifyAppImpl s m).1 = s.emit o := by
+  unfold verifyAppImpl
+  split
+  · exact Or.inl rfl
+  · simp only []
+    split <;> exact Or.inr ⟨_, rfl⟩
+
+/-- verification changes nothing but the observation log, by at most one callback observation -/
+theorem verifySelect_emit (s : Sess) (m : InMsg) (a b c : Bool) :
+    (verifySelect s m a b c).1 = s ∨ ∃ o, (verifySelect s m a b c).1 = s.emit o := by
+  unfold verifySelect
+  repeat' split
+  all_goals first | exact Or.inl rfl | exact verifyAppImpl_emit s m
 
 end Qfx.Sess
